@@ -74,7 +74,7 @@ def gen_batch(rng, tier, index):
     mem = gen_prog.gen_mem(rng, machine)
     mem['patches'] += [[org, bytes(e.code).hex()], [isr, 'f5f1fbc9'], [0xFEFF, bytes((isr & 0xFF, isr >> 8)).hex()]]
     regs = gen_lock.gen_regs30(rng, machine, org)
-    regs[12] = rng.choice((0x5C00, 0x7F00, 0xBF00, 0xFF00))
+    regs[12] = rng.choice((0x5C00, 0x7F00, 0xBF00, 0xFC00))      # never on the IM 2 vector at 0xFEFF
     regs[14] = 0xFE
     regs[27] = 2
     regs[26] = iff0
@@ -89,24 +89,26 @@ def run_batch(scn, res):
     st = lockstep.materialise_state(scn)
     machine = st['machine']
     finals = {}
+    timed_out = []
     for kind in scn['replicas']:
         rp = lockstep.get_replica(kind, machine)
         rp.reset(st)
-        if not rp.isc:
-            # Python engines are interruptible; a run that does not terminate is discarded before the C engines try it
-            old = signal.signal(signal.SIGALRM, _alarm)
-            signal.alarm(3)
-            try:
-                rp.sim.run(st['regs'][24], scn['stop'], scn['interrupts'])
-            except RunTimeout:
-                res['discard'] = 'batch program does not reach its stop address'
-                return res
-            finally:
-                signal.alarm(0)
-                signal.signal(signal.SIGALRM, old)
-        else:
+        # every run is guarded: the Python loops are interruptible, the C loop polls for signals every 2^24 T-states
+        old = signal.signal(signal.SIGALRM, _alarm)
+        signal.alarm(3)
+        try:
             rp.sim.run(st['regs'][24], scn['stop'], scn['interrupts'])
+        except RunTimeout:
+            timed_out.append(kind)
+            continue
+        finally:
+            signal.alarm(0)
+            signal.signal(signal.SIGALRM, old)
         finals[kind] = (rp.regs(), rp.phys()[1], list(rp.world.log))
+    if timed_out:
+        # a wall-clock limit is load dependent, so it never decides a verdict: the scenario is discarded and counted
+        res['discard'] = 'batch program does not reach its stop address within the time limit on %s' % ('all replicas' if len(timed_out) == len(scn['replicas']) else 'some replicas')
+        return res
     bump(res, 'batch_runs')
     for a, b, skip in (('py', 'pyfast', (29,)), ('py', 'c', (29,)), ('pycmio', 'ccmio', ())):
         if a in finals and b in finals:
@@ -164,7 +166,7 @@ def run_tool(scn, res):
         if outs[False][2] != outs[True][2]:
             return fail(res, 'C06/tool/map', 'trace.py %s: --map output differs with --python' % args)
         res['sigs'] = ['tool|%s|%s|v%d|%s' % (machine, scn['cmio'], scn['verbose'], scn['limit'])]
-        res['digest'] = hashlib.sha256(outs[False][0].encode()).hexdigest()
+        res['digest'] = hashlib.sha256(outs[False][0].replace(wd, '<wd>').encode()).hexdigest()
         return res
     finally:
         shutil.rmtree(wd, ignore_errors=True)
